@@ -657,7 +657,13 @@ def ecdh_encrypt(curve):
         r.hook('pgpy.packet.fields.ECDHPub', '__pubkey__', scn.mconst(RPUB))
         M = z3.Const('M', B)
         PADDED = z3.Function('PKCS5_PAD8', B, B)
-        ex.hooks[('ext:PKCS7.padder', 'update')] = lambda ex, st, o, a: [(st, E.VBytes(PADDED(ex.seq(a[0], st))))]
+
+        def pad_update(ex, st, o, a):
+            # o is the opaque padder: PKCS7(<block bits>).padder()
+            made_by = o.args[0] if isinstance(o, E.VExt) and o.args else None
+            st.ghost['pad_block_bits'] = made_by.args[0] if isinstance(made_by, E.VExt) and made_by.args else None
+            return [(st, E.VBytes(PADDED(ex.seq(a[0], st))))]
+        ex.hooks[('ext:PKCS7.padder', 'update')] = pad_update
         ex.hooks[('ext:PKCS7.padder', 'finalize')] = lambda ex, st, o, a: [(st, E.VBytes(z3.Empty(B)))]
         r.hook(CT, '__call__', lambda ex, st, c, a: [(st, E.VObj(CT, 'ct'))])
         r.hook('pgpy.packet.types.MPI', '__call__', lambda ex, st, c, a: [(st, E.VExt('MPI', (a[0],)))])
@@ -699,6 +705,8 @@ def ecdh_encrypt(curve):
             okc = isinstance(c, E.VExt) and c.name == 'aes_key_wrap' and len(c.args) >= 2
             r.oblige(s, 'C=aes_key_wrap(KEK,padded-m)/p%d' % pi,
                      z3.And(z3.BoolVal(bool(okc)), z3.And(ex.seq(c.args[0], s) == Z, ex.seq(c.args[1], s) == PADDED(M)) if okc else z3.BoolVal(False)))
+            pb = s.ghost.get('pad_block_bits')
+            r.oblige(s, 'rfc6637-8:padding-is-to-a-multiple-of-eight-octets/p%d' % pi, ex.as_int(pb) == 64 if pb is not None else z3.BoolVal(False))
             p = s.heap.get(('ct', 'p'))
 
             def mentions(t, what):
@@ -769,3 +777,82 @@ _base_scn3 = scenarios
 
 def scenarios():
     return _base_scn3() + [eckdf_derive()]
+
+
+def ecdh_decrypt(curve):
+    """ECDHCipherText.decrypt (RFC 6637 section 8, inverse direction): wiring of the externals"""
+    label = 'C04/ECDHCipherText.decrypt[%s]' % curve
+    CT = 'pgpy.packet.fields.ECDHCipherText'
+
+    def gen(repo):
+        r = scn.Run(repo, CT, 'decrypt', label)
+        ex, st = r.ex, r.st
+        C25519 = E.VExt('OID.Curve25519', ())
+        r.hook('pgpy.constants.EllipticCurveOID', 'Curve25519', scn.const(C25519))
+        oid = C25519 if curve == 'Curve25519' else E.VExt('OID.NIST_P256', ())
+        pk = E.VObj('pgpy.packet.packets.PrivKeyV4', 'recipient')
+        km = E.VObj('pgpy.packet.fields.ECDHPriv', 'km')
+        r.set('recipient', 'keymaterial', km)
+        r.set('km', 'oid', oid)
+        r.set('km', 'kdf', E.VObj('pgpy.packet.fields.ECKDF', 'kdf'))
+        FPR = E.VExt('recipient-fingerprint', ())
+        r.hook('pgpy.packet.packets.PrivKeyV4', 'fingerprint', scn.const(FPR))
+        RPRIV = E.VExt('recipient-private-key', ())
+        r.hook('pgpy.packet.fields.ECDHPriv', '__privkey__', scn.mconst(RPRIV))
+        PX, PY = E.VExt('received-point-x', ()), E.VExt('received-point-y', ())
+        point = E.VObj('pgpy.packet.fields.ECPoint', 'point')
+        r.set('ct', 'p', point)
+        r.set('point', 'x', PX)
+        r.set('point', 'y', PY)
+        C = z3.Const('C', B)
+        r.set('ct', 'c', E.VBytes(C))
+        Z = z3.Const('KEK', B)
+        UNPAD = z3.Function('PKCS5_UNPAD8', B, B)
+        UNWRAP = z3.Function('AES_KEY_UNWRAP', B, B, B)
+
+        def derive(ex, st, o, a):
+            st.ghost['kdf_args'] = a
+            return [(st, E.VBytes(Z))]
+        r.hook('pgpy.packet.fields.ECKDF', 'derive_key', scn.method_hook(derive))
+        ex.hooks[('ext', 'aes_key_unwrap')] = lambda ex, st, o, a: [(st, E.VBytes(UNWRAP(ex.seq(a[0], st), ex.seq(a[1], st))))]
+
+        def unpad_update(ex, st, o, a):
+            made_by = o.args[0] if isinstance(o, E.VExt) and o.args else None
+            st.ghost['pad_block_bits'] = made_by.args[0] if isinstance(made_by, E.VExt) and made_by.args else None
+            return [(st, E.VBytes(UNPAD(ex.seq(a[0], st))))]
+        ex.hooks[('ext:PKCS7.unpadder', 'update')] = unpad_update
+        ex.hooks[('ext:PKCS7.unpadder', 'finalize')] = lambda ex, st, o, a: [(st, E.VBytes(z3.Empty(B)))]
+
+        def mentions(t, what):
+            if t is what:
+                return True
+            if isinstance(t, E.VBuiltin) and isinstance(t.bound, tuple):
+                return any(mentions(x, what) for x in t.bound)
+            return isinstance(t, E.VExt) and any(mentions(x, what) for x in list(t.args) + list(t.kws.values()))
+        for pi, (s, v) in enumerate(r.call(E.VObj(CT, 'ct'), [pk])):
+            if isinstance(v, E.Raise):
+                r.oblige(s, 'safety(%s)/p%d' % (v.exc, pi), z3.BoolVal(False), v.where)
+                continue
+            ka = s.ghost.get('kdf_args')
+            r.oblige(s, 'kek-derived-once/p%d' % pi, z3.BoolVal(ka is not None and len(ka) == 4))
+            if ka is None:
+                continue
+            shared = ka[0]
+            okx = isinstance(shared, E.VExt) and shared.name.endswith('.exchange') and shared.args[0] is RPRIV and mentions(shared.args[-1], PX)
+            r.oblige(s, 'shared-secret=exchange(recipient-private,received-ephemeral-point)/p%d' % pi, z3.BoolVal(bool(okx)))
+            if curve != 'Curve25519':
+                r.oblige(s, 'both-coordinates-and-the-key-curve-make-the-ephemeral-point/p%d' % pi, z3.BoolVal(mentions(shared.args[-1], PY) and mentions(shared.args[-1], oid)))
+            PA = repo.enum_members('pgpy.constants.PubKeyAlgorithm')
+            r.oblige(s, 'kdf-parameters:curve,ECDH,recipient-fingerprint/p%d' % pi, z3.And(z3.BoolVal(ka[1] is oid and ka[3] is FPR), ex.as_int(ka[2]) == PA['ECDH']))
+            pb = s.ghost.get('pad_block_bits')
+            r.oblige(s, 'rfc6637-8:padding-is-to-a-multiple-of-eight-octets/p%d' % pi, ex.as_int(pb) == 64 if pb is not None else z3.BoolVal(False))
+            r.oblige(s, 'm=unpad(aes_key_unwrap(KEK,C))/p%d' % pi, ex.seq(v, s) == UNPAD(UNWRAP(Z, C)))
+        return r.result()
+    return Scenario(label, CT + '.decrypt', gen, props=('C04', 'C03'))
+
+
+_base_scn4 = scenarios
+
+
+def scenarios():
+    return _base_scn4() + [ecdh_decrypt('Curve25519'), ecdh_decrypt('NIST')]
